@@ -82,6 +82,17 @@ func init() {
 				"authutil.Argon2CompareHashAndPassword": {lean: "ext.argon2Compare", ret: []string{"error"}},
 				"pa.storage.DeleteSigned":               {lean: "ext.deleteResult", ret: []string{"error"}, effect: "KM.GoTypes.StoreEffect.delete"}},
 			retLean: "Option KM.Go.Err × List KM.GoTypes.StoreEffect"},
+		// C10: lib/certgen ValidatePublicKeyStrength — a type switch over the key's dynamic type
+		glTarget{pkg: "lib/certgen", name: "ValidatePublicKeyStrength", group: "Certgen",
+			paramLean: map[string]string{"pub": "KM.GoTypes.PubKey"},
+			typeCases: map[string]glTypeCase{
+				"*rsa.PublicKey": {pattern: ".rsa bits e", bind: map[string][2]string{
+					"k.N.BitLen()": {"bits", "int"}, "k.E": {"e", "int"}}},
+				"*ecdsa.PublicKey": {pattern: ".ecdsa bitSize", bind: map[string][2]string{
+					"k.Curve.Params().BitSize": {"bitSize", "int"}}},
+				"*ed25519.PublicKey": {pattern: ".ed25519"},
+				"ed25519.PublicKey":  {pattern: ".ed25519"}},
+			retLean: "Bool × Option KM.Go.Err"},
 		// C08
 		glTarget{pkg: "cmd/keymasterd", name: "isAutomationAdmin", group: "Admin",
 			binders: "(isAdminUser : List Char → Bool) (automationAdmins : List (List Char))",
